@@ -7,6 +7,6 @@ require (
 	pgregory.net/rapid v1.3.0
 )
 
-require github.com/pbenner/threadpool v0.0.0-20191122191339-0302c226b91e // indirect
+require github.com/pbenner/threadpool v0.0.0-20191122191339-0302c226b91e
 
 replace github.com/pbenner/autodiff => /repo
